@@ -8,10 +8,22 @@ def jobs(tier):
     ]
 
 
+from props import C15 as _c15
+
+
+def routing_jobs(tier):
+    """O2: the routing table of update events that a restarted peer rebuilds from the persisted replicator records is the one
+    a never-restarted twin has (both equal what was last configured)"""
+    calls = 2 if tier == "quick" else 3
+    return [{"id": f"O2.replicator-routing.calls{calls}.restart{r}", "func": "VerifH_C15_Routing", "conf": {"calls": calls, "restart": r, "nested": 0},
+             "_obligation": "O2", "_covers": ["configured"], "map_order": True, "unwind": 24} for r in (0, 1)]
+
+
 PROPERTY = {
     "id": "C14",
-    "suites": [{"name": "sequence", "pkg": "internal/db/sequence", "files": ["zz_verif_c14.go"], "common": ["intrinsics", "kvmodel"], "jobs": jobs}],
-    "bounds": {"stored counter": "any uint64 < 2^63 or absent", "Next calls before restart": "<= 3", "Next calls after restart": "1..3"},
+    "suites": [{"name": "sequence", "pkg": "internal/db/sequence", "files": ["zz_verif_c14.go"], "common": ["intrinsics", "kvmodel"], "jobs": jobs},
+               dict(_c15.PROPERTY["suites"][0], name="routing", jobs=routing_jobs)],
+    "bounds": {"replicator routing (O2)": "2 replicators, 2 collections, 2 (thorough 3) configuration steps, then a restart (new server, loadAndPublishReplicators) or none", "stored counter": "any uint64 < 2^63 or absent", "Next calls before restart": "<= 3", "Next calls after restart": "1..3"},
     "assumptions": ["the system store behaves like the documented corekv contract (kvmodel)", "restart = a new Sequence object over the same store content"],
-    "outside_claim": ["everything else in the statement: descriptions, indexes, schema, peers are rebuilt from GraphQL/JSON/CBOR state; crash points inside badger"],
+    "outside_claim": ["everything else in the statement: descriptions, indexes, schema, p2p collection subscriptions are rebuilt from GraphQL/JSON/CBOR state; crash points inside badger"],
 }
